@@ -1,7 +1,10 @@
 use crate::listener::{EvictionListener, EvictionReason};
 
 use std::sync::Arc;
+#[cfg(not(excsn_fibre_verif))]
 use std::thread::{self, JoinHandle};
+#[cfg(excsn_fibre_verif)]
+use fibre_verif_rt::thread::{self, JoinHandle};
 
 use fibre::mpsc;
 
